@@ -1235,7 +1235,7 @@ def m_is_some_and(c):
             c.ret(Int.const(other, 1, False), st=s)
 
 
-@model("core::bool::<impl bool>::then", "core::bool::<impl bool>::then_some", "std::primitive::bool::then", "std::primitive::bool::then_some", "bool::then", "bool::then_some")
+@model("core::bool::then", "core::bool::then_some", "core::bool::<impl bool>::then", "core::bool::<impl bool>::then_some", "std::primitive::bool::then", "std::primitive::bool::then_some", "bool::then", "bool::then_some")
 def m_bool_then(c):
     b, bl = c.arg(0)
     lazy = c.name.endswith("::then")
